@@ -145,7 +145,7 @@ class OBJ(object):
                 for face in mesh.faces:
                     for fi in face:
                         vert_normals.append(msh_norms[fi])
-                return cls(vertices, faces, vertex_normals=msh_norms,
+                return cls(vertices, faces, vertex_normals=vert_normals,
                            vertex_colors=colors)
             return cls(vertices, faces, vertex_colors=colors)
         vertex_colors = mesh.colors if include_colors else None
